@@ -23,10 +23,7 @@ def gen(rng, tier):
     ndefs = 30 if tier == "quick" else 700
     for i in range(ndefs):
         doc = defgen.rnd_definition(rng, apid_name="PKT_APID" if i % 4 else "APPLICATION_ID")
-        try:
-            dobj = docs.definition_py(doc)
-        except Exception:  # noqa: BLE001  (a generated document the library refuses to build is not a C05 input)
-            continue
+        dobj = defgen.try_build(doc)
         pkts = []
         for _ in range(6):
             pkts += defgen.fit_packet(dobj, defgen.rnd_packet(rng, rng.randrange(1, 30)))[:rng.choice([1, 1, 3])]
